@@ -1,18 +1,31 @@
 """C03 - type mismatches are rejected at compile time.
 
-SyltMismatch (TLA+) defines the universe: a table of mismatches (planted ill-typed expression / statements, the
-well-typed base it replaces, the typing rule it violates) x every chain of contexts (innermost first, the last one
-a top that yields a whole program) of length <= Depth whose sorts and types fit.  MC_Mismatch
-  * mode emit: checks the universe's sanity as ASSUMEs (rules known, planted # base, operator/list forms decided by
-    the spec's operator table, every type-compatible context x mismatch cell inhabited, planted program # base
-    program) and prints one REPLAY record per case (base and planted program as ASTs);
-  * mode validate: reads the compile results the harness (c03) recorded for both programs of every case, asserts
-    that the records are exactly the specification's universe, and evaluates Verdict(record): REJECT with
+Two universes, one specification (MC_Mismatch EXTENDS SyltArrival EXTENDS SyltMismatch):
+  * SyltMismatch: a table of mismatches (planted ill-typed expression / statements built from LITERALS and prelude
+    functions, the well-typed base it replaces, the typing rule it violates) x every chain of contexts (innermost
+    first, the last one a top that yields a whole program) of length <= Depth whose sorts and types fit;
+  * SyltArrival: the same kinds of mismatch as CORES over operand slots (plus cores whose rule is a GENERIC signature
+    of a user function or of a std function) x the ARRIVAL FORM of every operand (literal, constant / mutable local,
+    global, blob field, tuple component, list element through std, case binding, captured variable, result of a user
+    function / of a generic identity, parameter of an annotated function, parameter of an UN-ANNOTATED function whose
+    call passes literals / variables / call results; two parameters of one function or of two nested closures)
+    x context chains.  Definiteness is decided by the spec's core typing table over the explicit types the arrival
+    forms deliver.
+MC_Mismatch
+  * mode emit: checks the universes' sanity as ASSUMEs and prints one REPLAY record per case (base and planted
+    program as ASTs);
+  * mode validate: reads the compile results the harness (c03) recorded for both programs of every case, asserts that
+    the records are exactly the specification's universe, and evaluates Verdict(record): REJECT with
     why in {planted-accepted, bytes-written, no-error-reported, panic} (violations) or base-rejected (generator problem).
-quick = full product to depth 2, thorough = depth 3 (chains of 3 end in the canonical tops).
+quick   = table: full product to depth 2; arrival: every core x form vector in every top alone and in the three plainest
+          statement positions under start, plus a seeded 1/MOD sample of all chains of length 2.
+thorough = table: depth 3 (chains of 3 end in the canonical tops); arrival: all chains of length <= 2, plus every ordered
+          pair of different arrival forms in the plain positions; processed in slices.
 """
+import hashlib
 import json
 import os
+import sys
 import vlib
 
 PID = "C03"
@@ -33,9 +46,18 @@ def tail_of(src):
     return src[j + 5:].strip("\n") if i >= 0 and j >= 0 else src
 
 
-def validate(wd, name, tf, depth, complete, workers=None):
-    v = vlib.tlc("MC_Mismatch", wd=wd, env={"MODE": "validate", "TRACE": tf, "DEPTH": depth, "COMPLETE": 1 if complete else 0},
-                 tags=("REJECT",), workers=workers, timeout=1500, out_file=os.path.join(wd, "tlc-%s.out" % name))
+def plan(tier):
+    if tier == "quick":
+        return {"DEPTH": 2, "FULL": 0, "PAIRS": 0, "MOD": 59, "NSLICE": 1}
+    return {"DEPTH": 3, "FULL": 1, "PAIRS": 1, "MOD": 1, "NSLICE": 12}
+
+
+def validate(wd, name, tf, env, complete, workers=None):
+    e = dict(env, MODE="validate", TRACE=tf, COMPLETE=1 if complete else 0)
+    # coverage off: TLC's cost model of the emitting definitions (deeply nested operators) does not fit in memory;
+    # the vacuity guards below count records and generated states instead
+    v = vlib.tlc("MC_Mismatch", wd=wd, env=e, tags=("REJECT",), workers=workers, timeout=1500, coverage=False,
+                 out_file=os.path.join(wd, "tlc-%s.out" % name))
     vlib.require_tlc_ok(v, "MC_Mismatch validate/" + name)
     rejects = {p["rec"]: p["why"] for (_, p) in v.records}   # PrintT may be evaluated twice: dedupe by record
     return v, rejects
@@ -47,7 +69,6 @@ def run(ctx):
     ev = vlib.Evidence(PID, tier, "model_checking")
     verdicts = vlib.Verdicts(PID)
     vlib.build_harness()
-    depth = 2 if tier == "quick" else 3
     pf = os.path.join(wd, "prelude.json")
     cf = os.path.join(wd, "cases.ndjson")
     tf = os.path.join(wd, "trace.ndjson")
@@ -55,117 +76,195 @@ def run(ctx):
 
     if ctx.replay:
         rp = json.load(open(ctx.replay))["replay"]
-        cases, prelude = [rp["case"]], rp["prelude"]
-        depth = 3 if rp["case"]["id"]["depth"] >= 3 else 2
-        universe = None
+        env0 = rp.get("env") or dict(plan("quick"), SEED=vlib.seed())
+        if "env" not in rp and rp["case"]["id"]["depth"] >= 3:
+            env0["DEPTH"] = 3
+        slices = [None]
     else:
-        r = vlib.tlc("MC_Mismatch", wd=wd, env={"MODE": "emit", "DEPTH": depth}, tags=("REPLAY", "PRELUDE", "UNIVERSE"),
-                     timeout=1500, xmx="8g", out_file=os.path.join(wd, "tlc-emit.out"))
-        vlib.require_tlc_ok(r, "MC_Mismatch emit (spec-level sanity of the universe)")
-        prelude = [p for (t, p) in r.records if t == "PRELUDE"][0]
-        universe = [p for (t, p) in r.records if t == "UNIVERSE"][0]
-        byid = {}
-        for (t, p) in r.records:
-            if t == "REPLAY":
-                byid[json.dumps(p["id"], sort_keys=True)] = p
-        cases = list(byid.values())
-        if len(cases) != universe["cases"]:
-            vlib.tool_error("TLC printed %d cases, the universe has %d" % (len(cases), universe["cases"]))
-        emitted = r.coverage.get("Emit", (0, 0))[1]
-        if emitted < len(cases):
-            vlib.tool_error("vacuity: action Emit fired %d times for %d cases" % (emitted, len(cases)))
-        if len(cases) < (2500 if tier == "quick" else 15000):
-            vlib.tool_error("vacuity: only %d cases" % len(cases))
-        ev.set(states=r.distinct, transitions=r.generated, universe=universe, emit_wall_s=round(r.wall_s, 1))
+        env0 = dict(plan(tier), SEED=vlib.seed())
+        slices = list(range(env0["NSLICE"]))
 
-    json.dump(prelude, open(pf, "w"))
-    vlib.write_ndjson(cf, cases)
-    vlib.harness("c03", ["record", pf, cf, tf, sf], timeout=3000)
-    recs = vlib.read_ndjson(tf)
-    srcs = vlib.read_ndjson(sf)
-    if len(recs) != len(cases):
-        vlib.tool_error("harness wrote %d records for %d cases" % (len(recs), len(cases)))
-    v, rejects = validate(wd, "validate", tf, depth, complete=not ctx.replay)
-    if not ctx.replay and v.coverage.get("Validate", (0, 0))[1] < len(recs):
-        vlib.tool_error("vacuity: action Validate fired %s times for %d records" % (v.coverage.get("Validate"), len(recs)))
-
+    # accumulated over the slices
+    tot = {"cases": 0, "table_cases": 0, "arrival_cases": 0, "bases_ok": 0, "states": 0, "transitions": 0, "emit_wall_s": 0.0}
+    universe0 = None
     base_rejected = []
     accepted_by_kind = {}
-    for idx, why in sorted(rejects.items()):
-        rec, src, case = recs[idx - 1], srcs[idx - 1], cases[idx - 1]
-        cid = rec["id"]
-        if why == "base-rejected":
-            base_rejected.append({"id": cid, "detail": src["base_detail"], "base": tail_of(src["base_src"])})
-            continue
-        if why not in VIOLATION_WHYS:
-            vlib.tool_error("unknown REJECT reason %r" % why)
-        accepted_by_kind[cid["kind"]] = accepted_by_kind.get(cid["kind"], 0) + 1
-        what = "mismatch %s (rule %s) in context %s: planted program %s (errors=%d, bytes=%d): %s" % (
-            cid["kind"], cid["rule"], ">".join(cid["path"]), rec["planted"], rec["nerr"], rec["bytes"],
-            " / ".join(tail_of(src["planted_src"]).split("\n"))[:160])
-        verdicts.add(signature(cid, why), what,
-                     {"case": case, "prelude": prelude, "observed": rec, "planted_source": src["planted_src"],
-                      "planted_detail": src["planted_detail"]})
+    accepted_by_form = {}
+    kinds_ok, kinds_all, inner_ok = set(), set(), set()
+    cores_ok, forms_ok, derived_ok = set(), set(), set()
+    planted_texts = set()
+    samples = []
+    neg_material = None
 
-    # vacuity guards on the replayed universe
-    n = len(recs)
-    nbase_ok = sum(1 for r_ in recs if r_["base"] == "ok")
-    if base_rejected:
-        import sys
-        for b in base_rejected[:5]:
-            print("note: base program rejected (generator problem, not a verdict): %s :: %s" % (b["id"], b["detail"][:200]), file=sys.stderr)
-    if nbase_ok < 0.95 * n:
-        vlib.tool_error("vacuity: only %d of %d base programs accepted" % (nbase_ok, n))
-    if not ctx.replay:
-        kinds_ok = {r_["id"]["kind"] for r_ in recs if r_["base"] == "ok"}
-        kinds_all = {c["id"]["kind"] for c in cases}
-        if kinds_ok != kinds_all or len(kinds_all) != universe["kinds"]:
-            vlib.tool_error("vacuity: mismatch kinds without an accepted base: %s" % sorted(kinds_all - kinds_ok))
-        inner = {r_["id"]["path"][0] for r_ in recs if r_["base"] == "ok"}
-        if len(inner) != universe["contexts"]:
-            vlib.tool_error("vacuity: only %d of %d contexts occur innermost with an accepted base" % (len(inner), universe["contexts"]))
+    for sl in slices:
+        env = dict(env0)
+        if sl is not None:
+            env["SLICE"] = sl
+        if ctx.replay:
+            cases, prelude = [rp["case"]], rp["prelude"]
+            universe = None
+        else:
+            r = vlib.tlc("MC_Mismatch", wd=wd, env=dict(env, MODE="emit"), tags=("REPLAY", "PRELUDE", "UNIVERSE"),
+                         timeout=2400, xmx="12g", coverage=False, out_file=os.path.join(wd, "tlc-emit.out"))
+            vlib.require_tlc_ok(r, "MC_Mismatch emit (spec-level sanity of the universe), slice %s" % sl)
+            prelude = [p for (t, p) in r.records if t == "PRELUDE"][0]
+            universe = [p for (t, p) in r.records if t == "UNIVERSE"][0]
+            byid = {}
+            for (t, p) in r.records:
+                if t == "REPLAY":
+                    byid[json.dumps(p["id"], sort_keys=True)] = p
+            cases = list(byid.values())
+            del byid
+            r.records = []
+            if len(cases) != universe["cases"]:
+                vlib.tool_error("TLC printed %d cases, the universe (slice %s) has %d" % (len(cases), sl, universe["cases"]))
+            # vacuity: one Emit step per case (coverage is off, so count the generated states: initial + successor)
+            if r.generated < 2 * len(cases):
+                vlib.tool_error("vacuity: TLC generated %d states for %d cases" % (r.generated, len(cases)))
+            universe0 = universe0 or universe
+            tot["states"] += r.distinct
+            tot["transitions"] += r.generated
+            tot["emit_wall_s"] += r.wall_s
+            tot["table_cases"] += universe["table_cases"]
+            tot["arrival_cases"] += universe["arrival_cases"]
+
+        json.dump(prelude, open(pf, "w"))
+        vlib.write_ndjson(cf, cases)
+        vlib.harness("c03", ["record", pf, cf, tf, sf], timeout=3000)
+        recs = vlib.read_ndjson(tf)
+        srcs = vlib.read_ndjson(sf)
+        if len(recs) != len(cases):
+            vlib.tool_error("harness wrote %d records for %d cases" % (len(recs), len(cases)))
+        v, rejects = validate(wd, "validate", tf, env, complete=not ctx.replay)
+        if not ctx.replay and v.generated < 2 * len(recs):
+            vlib.tool_error("vacuity: validation generated %d states for %d records" % (v.generated, len(recs)))
+        tot["states"] += v.distinct
+        tot["transitions"] += v.generated
+        tot["cases"] += len(recs)
+
+        for idx, why in sorted(rejects.items()):
+            rec, src, case = recs[idx - 1], srcs[idx - 1], cases[idx - 1]
+            cid = rec["id"]
+            if why == "base-rejected":
+                base_rejected.append({"id": cid, "detail": src["base_detail"], "base": tail_of(src["base_src"])})
+                continue
+            if why not in VIOLATION_WHYS:
+                vlib.tool_error("unknown REJECT reason %r" % why)
+            accepted_by_kind[cid["core"]] = accepted_by_kind.get(cid["core"], 0) + 1
+            fk = "+".join(cid["forms"]) or "table"
+            accepted_by_form[fk] = accepted_by_form.get(fk, 0) + 1
+            what = "mismatch %s (rule %s) in context %s: planted program %s (errors=%d, bytes=%d): %s" % (
+                cid["kind"], cid["rule"], ">".join(cid["path"]), rec["planted"], rec["nerr"], rec["bytes"],
+                " / ".join(tail_of(src["planted_src"]).split("\n"))[:200])
+            verdicts.add(signature(cid, why), what,
+                         {"case": case, "prelude": prelude, "env": env, "observed": rec, "planted_source": src["planted_src"],
+                          "planted_detail": src["planted_detail"]})
+
         if any(r_["same_text"] for r_ in recs):
             vlib.tool_error("a planted program renders to the same text as its base")
+        for r_, s_ in zip(recs, srcs):
+            i_ = r_["id"]
+            kinds_all.add(i_["kind"])
+            if r_["base"] == "ok":
+                tot["bases_ok"] += 1
+                kinds_ok.add(i_["kind"])
+                inner_ok.add(i_["path"][0])
+                planted_texts.add(hashlib.sha1(s_["planted_src"].encode()).digest()[:10])
+                if i_["m"][0] != 0:
+                    cores_ok.add(i_["core"])
+                    forms_ok.update(i_["forms"])
+                    derived_ok.add(i_["kind"])
+        n = len(recs)
+        want_samples = [0, n - 1] if n > 1 else range(n)
+        arr = [i for i in range(n) if recs[i]["id"]["m"][0] != 0]
+        if arr:
+            want_samples = list(want_samples) + [arr[len(arr) // 3], arr[(2 * len(arr)) // 3]]
+        if len(samples) < 8:
+            for i in want_samples:
+                samples.append({"id": recs[i]["id"], "observed": {k: recs[i][k] for k in ("base", "planted", "nerr", "bytes")},
+                                "base_source": tail_of(srcs[i]["base_src"]), "planted_source": tail_of(srcs[i]["planted_src"])})
+        if neg_material is None and not ctx.replay:
+            step = max(1, len(cases) // 90)
+            neg_material = (cases[::step][:90], prelude, env)
+        del cases, recs, srcs
+
+    # vacuity guards on the replayed universe
+    n = tot["cases"]
+    if base_rejected:
+        for b in base_rejected[:5]:
+            print("note: base program rejected (generator problem, not a verdict): %s :: %s" % (b["id"]["kind"], b["detail"][:200]), file=sys.stderr)
+    if tot["bases_ok"] < 0.95 * n:
+        vlib.tool_error("vacuity: only %d of %d base programs accepted" % (tot["bases_ok"], n))
+    if not ctx.replay:
+        u = universe0
+        if n < (20000 if tier == "quick" else 100000):
+            vlib.tool_error("vacuity: only %d cases" % n)
+        table_kinds_ok = {k for k in kinds_ok if "@" not in k}
+        if len(table_kinds_ok) != u["kinds"]:
+            vlib.tool_error("vacuity: %d of %d table mismatch kinds have an accepted base" % (len(table_kinds_ok), u["kinds"]))
+        if kinds_ok != kinds_all:
+            vlib.tool_error("vacuity: mismatch kinds without an accepted base: %s" % sorted(kinds_all - kinds_ok)[:20])
+        if len(inner_ok) != u["contexts"]:
+            vlib.tool_error("vacuity: only %d of %d contexts occur innermost with an accepted base" % (len(inner_ok), u["contexts"]))
+        if cores_ok != set(u["core_kinds"]):
+            vlib.tool_error("vacuity: cores without an accepted base: %s" % sorted(set(u["core_kinds"]) - cores_ok))
+        if forms_ok != set(u["form_names"]):
+            vlib.tool_error("vacuity: arrival forms without an accepted base: %s" % sorted(set(u["form_names"]) - forms_ok))
+        if len(derived_ok) != u["derived"]:
+            vlib.tool_error("vacuity: %d of %d derived mismatches (core x form vector) have an accepted base" % (len(derived_ok), u["derived"]))
 
         # negative controls: a falsified planted observation must be rejected by the specification
-        step = max(1, len(cases) // 90)
-        sub = cases[::step][:90]
+        sub, prelude, env = neg_material
         ncf = os.path.join(wd, "neg-cases.ndjson")
+        json.dump(prelude, open(pf, "w"))
         vlib.write_ndjson(ncf, sub)
         nrej_total = 0
-        for stub, expect in (("accept", "planted-accepted"), ("bytes", "bytes-written"), ("panic", "panic")):
+        stubs = (("accept", "planted-accepted"), ("bytes", "bytes-written"), ("panic", "panic"))
+        allrecs = []
+        for stub, expect in stubs:
             ntf = os.path.join(wd, "neg-trace-%s.ndjson" % stub)
             vlib.harness("c03", ["record", pf, ncf, ntf, os.path.join(wd, "neg-src.ndjson")], env={"C03_STUB": stub})
-            nrecs = vlib.read_ndjson(ntf)
-            _, nrej = validate(wd, "neg-" + stub, ntf, depth, complete=False, workers=4)
-            want = [i + 1 for i in range(len(sub)) if i % 3 == 1 and nrecs[i]["base"] == "ok"]
+            allrecs.append(vlib.read_ndjson(ntf))
+        ntf = os.path.join(wd, "neg-trace.ndjson")
+        vlib.write_ndjson(ntf, sum(allrecs, []))            # one validation run over the three falsified traces
+        _, nrej = validate(wd, "neg", ntf, env, complete=False, workers=4)
+        for j, (stub, expect) in enumerate(stubs):
+            off = j * len(sub)
+            want = [off + i + 1 for i in range(len(sub)) if i % 3 == 1 and allrecs[j][i]["base"] == "ok"]
             missed = [i for i in want if nrej.get(i) != expect and not (stub == "bytes" and nrej.get(i) in VIOLATION_WHYS)]
             if missed or not want:
                 vlib.tool_error("negative control %s: %d of %d falsified records not rejected as %s" % (stub, len(missed), len(want), expect))
             nrej_total += len(want)
-        ev.set(negative_controls_rejected=nrej_total)
+        unfalsified = [i + 1 for i in range(len(sub)) if i % 3 != 1 and allrecs[0][i]["base"] == "ok" and allrecs[0][i]["planted"] == "err"]
+        if any(i in nrej for i in unfalsified):
+            vlib.tool_error("negative control: an unfalsified conforming record was rejected")
+        ev.set(negative_controls_rejected=nrej_total,
+               universe={k: universe0[k] for k in ("kinds", "depth", "contexts", "cores", "forms", "derived")},
+               arrival_forms=universe0["form_names"], arrival_cores=universe0["core_kinds"])
 
-    distinct_planted = len({s_["planted_src"] for s_, r_ in zip(srcs, recs) if r_["base"] == "ok"})
-    samples = []
-    for i in ([0, n // 3, (2 * n) // 3, n - 1] if n > 3 else range(n)):
-        samples.append({"id": recs[i]["id"], "observed": {k: recs[i][k] for k in ("base", "planted", "nerr", "bytes")},
-                        "base_source": tail_of(srcs[i]["base_src"]), "planted_source": tail_of(srcs[i]["planted_src"])})
-    ev.add("states", v.distinct)
-    ev.add("transitions", v.generated)
-    ev.set(traces_validated_against_impl=n, programs=2 * n, evaluations=2 * n, distinct_nontrivial=distinct_planted,
-           depth=depth, exhaustive=not ctx.replay, bases_accepted=nbase_ok, bases_rejected=len(base_rejected),
+    n_accepted = sum(accepted_by_kind.values())
+    ev.set(states=tot["states"], transitions=tot["transitions"], emit_wall_s=round(tot["emit_wall_s"], 1),
+           traces_validated_against_impl=n, programs=2 * n, evaluations=2 * n, distinct_nontrivial=len(planted_texts),
+           table_cases=tot["table_cases"], arrival_cases=tot["arrival_cases"], plan=env0,
+           exhaustive=not ctx.replay, bases_accepted=tot["bases_ok"], bases_rejected=len(base_rejected),
            base_rejected_examples=base_rejected[:3],
-           planted_rejected_as_required=sum(1 for r_ in recs if r_["base"] == "ok") - sum(accepted_by_kind.values()),
-           planted_not_rejected=sum(accepted_by_kind.values()), planted_not_rejected_by_kind=accepted_by_kind,
+           planted_rejected_as_required=tot["bases_ok"] - n_accepted,
+           planted_not_rejected=n_accepted, planted_not_rejected_by_core=accepted_by_kind,
+           planted_not_rejected_by_forms=accepted_by_form,
            violation_signatures=len({s for (s, _, _) in verdicts.violations}),
-           rule="every mismatch of SyltMismatch!MM in every fitting context chain of length <= %d (chains of 3 end in the tops start/global); "
-                "each case compiled in base and planted form with std; distinct_nontrivial = distinct planted program texts whose base "
-                "form the compiler accepted" % depth,
-           samples=samples, known_findings_hit=verdicts.known_hits)
-    ev.assume("the mismatches are the property's list instantiated with literals and the prelude's functions/blobs; the rule each violates is stated in SyltMismatch!MM, "
-              "decided by the spec's operator table only for operator/list forms over literals",
+           rule="table: every mismatch of SyltMismatch!MM in every fitting context chain of length <= DEPTH (chains of 3 end in the tops "
+                "start/global); arrival: every core x applicable form vector of SyltArrival (one slot: every form; two slots: both by "
+                "the same form - one shared function and two nested closures for parameter forms - or one of them a literal; PAIRS: "
+                "every ordered pair) in the chains AChains (FULL: all of length <= 2; otherwise tops alone, unused/definfer/printarg "
+                "under start and a seeded 1/MOD sample of length 2); each case compiled in base and planted form with std; "
+                "distinct_nontrivial = distinct planted program texts whose base form the compiler accepted",
+           samples=samples[:8], known_findings_hit=verdicts.known_hits)
+    ev.assume("the mismatches are the property's list instantiated with literals and the prelude's functions/blobs (table MM) and with operands "
+              "that arrive through the forms of SyltArrival; the rule each violates is stated in the tables and decided by the spec's operator "
+              "/ core typing table over explicit types (literal types, repeated by every annotation an arrival form writes)",
               "the printer renders the ASTs faithfully (an unfaithful rendering shows up as a rejected base or as identical base/planted text: both guarded)",
-              "int < float is accepted by design (Cmp) and is not planted")
+              "int < float is accepted by design (Cmp) and is not planted; an un-annotated function used at two incompatible types by two call "
+              "sites is accepted by design (per-call instantiation) and is not planted")
     rc = verdicts.finish()
     ev.violations = len(verdicts.violations)
     ev.write()
